@@ -83,6 +83,8 @@ def gen(rng, k=None):
 
 
 ADAPTIVE = []
+ASSEMBLE = []
+import assemble_model
 ENTRY = []
 PICK_RNG = np.random.default_rng(30303)     # separate stream: keeps the fixed sample the validated one
 import region_model
@@ -134,6 +136,8 @@ def sample_stacks(ctx, target, directed=False):
                 clusters = SBC().get_clusters(a, seed=seed)
             if len(ADAPTIVE) < 500:
                 ADAPTIVE.extend(prec.adaptive[:40])
+            if len(ASSEMBLE) < 60:
+                ASSEMBLE.extend(prec.assemble[:3])
             if len(ENTRY) < 200:
                 import finder_helpers as FH
                 ENTRY.extend(FH.entry_items(a, rec.system, PICK_RNG, "stack"))
@@ -170,6 +174,7 @@ def run(ctx):
     import finder_helpers
     finder_helpers.check(ctx, broken, ADAPTIVE, ENTRY)
     region_model.check(ctx, broken, REGION_REC.records)
+    assemble_model.check(ctx, broken, ASSEMBLE)
     if broken and not bad:
         bad, f2, f3 = sample_stacks(ctx, ctx.n(60, 300), directed=True)
         for b in bad[:5]:
